@@ -13,6 +13,8 @@ import (
 	"regexp"
 	"strconv"
 	"strings"
+
+	"golang.org/x/tools/go/ssa"
 )
 
 type inputTerms struct {
@@ -187,12 +189,14 @@ const replayTestSrc = `package libinjection
 import (
 	"fmt"
 	"os"
+	"reflect"
 	"strings"
 	"testing"
 	"time"
 )
 
 var _ = strings.Index
+var _ = reflect.ValueOf
 
 func zzRun(name string, f func()) (res string) {
 	done := make(chan string, 1)
@@ -293,6 +297,9 @@ func (pr *Program) replayAPI(prop string, o *Obl, input []byte) (bool, string) {
 `, o.ctx.topName, o.ctx.topName)
 		}
 	}
+	if prop == "C10" || prop == "C11" {
+		extra += relReplayExtra(o.ctx.topName, fn)
+	}
 	alpha := map[string]string{
 		"C15": "oncliks ja:'\"`>/ &#;",
 		"C17": "<>%-!]?'\"`/ \x00[",
@@ -319,4 +326,67 @@ func (pr *Program) replayAPI(prop string, o *Obl, input []byte) (bool, string) {
 		return false, "replay harness did not run: " + clip(out, 1500)
 	}
 	return strings.Contains(out, "REPLAY-RESULT reproduced"), clip(strings.Join(keep, "\n"), 3000)
+}
+
+// relReplayExtra: function-level two-run replay for mode R obligations: the function is run on the
+// model's input and on systematic case variants of it (exempt positions held fixed), from every
+// position / mode, and the observable results are compared.
+func relReplayExtra(name string, fn *ssa.Function) string {
+	sig := fn.Signature
+	switch {
+	case name == "htmlDecodeByteAt":
+		return `	for p := 0; p <= len(input); p++ {
+		a := input[p:]
+		v0, c0 := htmlDecodeByteAt(a)
+		for _, w := range zzCaseVariants(a, func(int) bool { return false }) {
+			v1, c1 := htmlDecodeByteAt(w)
+			if zzUp(v0) != zzUp(v1) || c0 != c1 {
+				report2("htmlDecodeByteAt", fmt.Sprintf("(%q) = (%d,%d) but (%q) = (%d,%d)", a, v0, c0, w, v1, c1))
+			}
+		}
+	}
+`
+	case name == "isBlackTag" || name == "isBlackAttr" || name == "isBlackURL":
+		return fmt.Sprintf(`	for p := 0; p <= len(input); p++ {
+		a := input[p:]
+		r0 := fmt.Sprint(%s(a))
+		for _, w := range zzCaseVariants(a, func(int) bool { return false }) {
+			if r1 := fmt.Sprint(%s(w)); r0 != r1 {
+				report2("%s", fmt.Sprintf("(%%q) = %%s but (%%q) = %%s", a, r0, w, r1))
+			}
+		}
+	}
+`, name, name, name)
+	case len(fn.Params) == 1 && fn.Params[0].Type().String() == "*github.com/corazawaf/libinjection-go.sqliState" && sig.Results().Len() == 1 && sig.Recv() == nil:
+		return fmt.Sprintf(`	{
+		obs := func(in string, pp, ff int) (out string) {
+			defer func() {
+				if e := recover(); e != nil {
+					out = fmt.Sprint("panic: ", e)
+				}
+			}()
+			s := new(sqliState)
+			sqliInit(s, in, ff)
+			s.pos = pp
+			r := %s(s)
+			t := s.current
+			return fmt.Sprintf("next=%%d cat=%%d pos=%%d len=%%d open=%%d close=%%d val=%%q hash=%%d ddw=%%d ddx=%%d", r, t.category, t.pos, t.len, t.strOpen, t.strClose, strings.ToUpper(t.val), s.statsCommentHash, s.statsCommentDDW, s.statsCommentDDX)
+		}
+		ex := zzExemptC10(input)
+		for _, fl := range []int{9, 17, 10, 18, 20} {
+			for p := 0; p < len(input); p++ {
+				o0 := obs(input, p, fl)
+				for _, w := range zzCaseVariants(input, ex) {
+					if byteParsersSame(input[p], w[p]) {
+						if o1 := obs(w, p, fl); o0 != o1 {
+							report2(fmt.Sprintf("%s@pos=%%d,flags=%%d", p, fl), fmt.Sprintf("on %%q: %%s but on %%q: %%s", input, o0, w, o1))
+						}
+					}
+				}
+			}
+		}
+	}
+`, name, name)
+	}
+	return ""
 }
